@@ -6,6 +6,7 @@ import Driver.Eval
 import Driver.SpecWalk
 import Driver.LayoutOracle
 import Driver.BOracle
+import Driver.ParaOracle
 import RosedVerif.Gem.Ref13
 namespace RosedVerif.Driver
 open RosedVerif
@@ -78,6 +79,7 @@ def oracleLine (pid kind : String) (args : List String) (go : String) : String :
     walk ["lines", "linesfrom", "linesto", "linecount", "apply", "commit", "string"] steps go
   | "C06", "prog", [steps] | "C07", "prog", [steps] | "C12", "prog", [steps] | "C13", "prog", [steps] =>
     walkLayout pid steps go
+  | "C11", "prog", [steps] => walkPara steps go
   | "C14", "prog", [steps] => walkComposite pid "twocol" steps go
   | "C15", "prog", [steps] => walkComposite pid "deftable" steps go
   | "C16", "prog", [steps] => walkComposite pid "table" steps go
